@@ -539,7 +539,9 @@ func (mr *memRepo) repoInit() error {
 	parseIndex := types.Index{}
 	err = json.NewDecoder(fh).Decode(&parseIndex)
 	if err != nil {
-		return err
+		// the index cannot be read, nothing of it is listed, the blobs of the layout are still served
+		mr.log.Warn("failed to parse index", "repo", mr.path, "err", err)
+		return nil
 	}
 	mr.index = parseIndex
 	// ingest to load child descriptors and configure referrers
